@@ -20,14 +20,11 @@ variable {K : Type} [Field K] [LinearOrder K] [IsStrictOrderedRing K]
     with storage); SCP and sugar within monthly output; seaweed ledger and bounds; feed/biofuel
     equal to the charge (human rounds) or within ceiling and never rising (feed round); crops
     (and stored food where storage between years is allowed) fully used by the last month.
-    `hwM` (meat waste at most 100 %) is needed for ONE clause only, `meat-monthly-cap`: since the
-    repair of D10 the code caps the *cumulative* meat eaten (`meat-cumulative`, proved without any
-    hypothesis); the per-month cap follows only when earlier months eat a non-negative grossed-up
-    amount.  With `wMeat = 200` (gross-up factor −1), `maxCulled = [−5, −5]`, eating 10 then 0 is
-    feasible (cumulative use −10 ≤ −5) although month 1 uses 0 > −5. -/
+    The former per-month meat cap is no longer a clause (it follows from `meat-cumulative` for
+    `wMeat ≤ 100`: `Proofs.LP.meat_cap`). -/
 theorem feasible_is_physical (i : Inp K) (kind : Kind) (x : Var → K) (hN : 2 ≤ i.nmonths)
-    (hwM : i.wMeat ≤ 100) (h : Feasible (buildLP i kind) x) : ∀ e ∈ physCore i kind x, e.value ≤ 0 :=
-  Proofs.LP.feasible_is_physical i kind x hN hwM h
+    (h : Feasible (buildLP i kind) x) : ∀ e ∈ physCore i kind x, e.value ≤ 0 :=
+  Proofs.LP.feasible_is_physical i kind x hN h
 
 /-- adding rows (the `0.99995·z*` floors and the secondary objectives) only shrinks the feasible set -/
 theorem extra_rows_preserve (rows extra : List (Row K)) (x : Var → K)
